@@ -279,6 +279,7 @@ func genCollect(repo string) ([]genDef, error) {
 			}
 		}
 	}
+	defs = append(defs, scanLimitDefs(repo, fset)...)
 	defs = append(defs, genDef{Name: "max_scan_token_size", Module: "Consts", Type: "N", Value: strconv.Itoa(bufio.MaxScanTokenSize), Comment: "bufio.MaxScanTokenSize of the Go toolchain that builds /repo"})
 	return defs, nil
 }
@@ -351,4 +352,110 @@ func genMain(args []string) {
 	}
 	sort.Strings(names)
 	fmt.Println(strings.Join(names, "\n"))
+}
+
+// ---- scanner limits per call site ----
+
+var scanSites = []struct{ file, fn, name string }{
+	{"regex/parser/parser.go", "Parse", "parser_parse"},
+	{"regex/operators/assembler.go", "assemble", "assembler_assemble"},
+	{"cmd/regex_format.go", "processFile", "format_process_file"},
+	{"util/renumber_tests.go", "processYaml", "renumber_process_yaml"},
+	{"chore/update_copyright.go", "updateRules", "copyright_update_rules"},
+	{"regex/parser/include_except_builder.go", "replaceSuffixes", "replace_suffixes"},
+	{"regex/parser/include_except_builder.go", "removeExclusions", "remove_exclusions"},
+	{"regex/parser/include_except_builder.go", "buildinclusionLineMap", "build_inclusion_line_map"},
+}
+
+// limit configured by a Buffer(_, max) call inside fn (0 = none)
+func bufferLimit(fn *ast.FuncDecl) string {
+	limit := ""
+	ast.Inspect(fn.Body, func(x ast.Node) bool {
+		c, ok := x.(*ast.CallExpr)
+		if !ok {
+			return true
+		}
+		sel, ok := c.Fun.(*ast.SelectorExpr)
+		if !ok || sel.Sel.Name != "Buffer" || len(c.Args) != 2 {
+			return true
+		}
+		switch a := c.Args[1].(type) {
+		case *ast.BasicLit:
+			limit = a.Value
+		case *ast.SelectorExpr:
+			if id, ok := a.X.(*ast.Ident); ok && id.Name == "math" {
+				switch a.Sel.Name {
+				case "MaxInt", "MaxInt64":
+					limit = "9223372036854775807"
+				case "MaxInt32":
+					limit = "2147483647"
+				}
+			}
+			if id, ok := a.X.(*ast.Ident); ok && id.Name == "bufio" && a.Sel.Name == "MaxScanTokenSize" {
+				limit = strconv.Itoa(bufio.MaxScanTokenSize)
+			}
+		}
+		return true
+	})
+	return limit
+}
+
+func findFunc(f *ast.File, name string) *ast.FuncDecl {
+	for _, d := range f.Decls {
+		if fd, ok := d.(*ast.FuncDecl); ok && fd.Name.Name == name && fd.Body != nil {
+			return fd
+		}
+	}
+	return nil
+}
+
+// scanLimitDefs: for every line-reading site, the maximum line length its scanner
+// delivers: bufio.MaxScanTokenSize for a plain bufio.NewScanner, the helper's
+// configured maximum for utils.NewLineScanner.
+func scanLimitDefs(repo string, fset *token.FileSet) []genDef {
+	def := strconv.Itoa(bufio.MaxScanTokenSize)
+	helper := def
+	if f, err := parser.ParseFile(fset, filepath.Join(repo, "utils/utils.go"), nil, 0); err == nil {
+		if fd := findFunc(f, "NewLineScanner"); fd != nil {
+			if l := bufferLimit(fd); l != "" {
+				helper = l
+			}
+		}
+	}
+	var out []genDef
+	for _, s := range scanSites {
+		limit := def
+		how := "bufio.NewScanner (default limit)"
+		if f, err := parser.ParseFile(fset, filepath.Join(repo, s.file), nil, 0); err == nil {
+			if fd := findFunc(f, s.fn); fd != nil {
+				usesHelper, usesPlain := false, false
+				ast.Inspect(fd.Body, func(x ast.Node) bool {
+					if c, ok := x.(*ast.CallExpr); ok {
+						if sel, ok := c.Fun.(*ast.SelectorExpr); ok {
+							if id, ok := sel.X.(*ast.Ident); ok {
+								if id.Name == "utils" && sel.Sel.Name == "NewLineScanner" {
+									usesHelper = true
+								}
+								if id.Name == "bufio" && sel.Sel.Name == "NewScanner" {
+									usesPlain = true
+								}
+							}
+						}
+					}
+					return true
+				})
+				if usesPlain {
+					if l := bufferLimit(fd); l != "" {
+						limit = l
+						how = "bufio.NewScanner with Buffer"
+					}
+				} else if usesHelper {
+					limit = helper
+					how = "utils.NewLineScanner"
+				}
+			}
+		}
+		out = append(out, genDef{Name: "scan_limit_" + s.name, Module: "Consts", Type: "N", Value: limit, Comment: s.file + " " + s.fn + ": " + how})
+	}
+	return out
 }
